@@ -3,7 +3,7 @@
 WT=/tmp/wt/reverify.$$
 git -C /repo worktree add -q --detach $WT HEAD || exit 3
 base=$(cd $WT && /venv/bin/python -m pytest -q -p no:cacheprovider 2>&1 | grep '^FAILED' | sed 's/ - .*//' | sort | md5sum | cut -c1-8)
-for d in ${@:-/verif/seeded/*}; do
+for d in ${@:-/verif/seeded/*/}; do d=${d%/}
   s=$(basename $d)
   sed "s#/repo#$WT#g" $d/demo.py > $WT/_demo.py
   (cd $WT && /venv/bin/python _demo.py >/dev/null 2>&1); d0=$?
